@@ -506,6 +506,8 @@ impl ContinuityStore {
                 .try_read_head_v1(continuity_id)
                 .ok()
                 .flatten();
+            #[cfg(rip_verif)]
+            rip_kernel::verif::point("compile.tail.head_read");
             match self.stream_cache.scan_tail_messages_runs_v1(
                 continuity_id,
                 MAX_TAIL_EVENTS,
